@@ -257,7 +257,7 @@ class Axis(GetSetDelAttrMixin, AbstractAxis):
         if name is not None:
             ax.name = name
         if 'attrs' in kwargs:
-            self.attrs = kwargs.pop('attrs')
+            ax.attrs = kwargs.pop('attrs') # (of the axis being set: a copy when not inplace)
         for k in kwargs:
             setattr(ax, k, kwargs[k])
 
